@@ -477,6 +477,20 @@ def check_laws(run):
             if np.any(np.diff(Fs) < -1e-9 * fmax):
                 fail("force decreases with indentation depth (depth <= R)",
                      "C13_monotone_powerlaws / partial")
+            # entirely out of contact (the contact point lies below all
+            # data): the force is the baseline, and follows it
+            xo = cp + np.linspace(3e-6, 1e-9, 12)
+            if run.rng.random() < 0.5:
+                xo = xo[::-1].copy()
+            Fo = md.model(p, xo)
+            p2["baseline"].set(value=bl + c)
+            Fo2 = md.model(p2, xo)
+            p2["baseline"].set(value=bl)
+            if np.max(np.abs(Fo - bl)) > 1e-12 * (fmax + abs(bl)) or \
+                    np.max(np.abs(Fo2 - (bl + c))) > 1e-12 * (fmax + abs(c)):
+                fail("out of contact the force is not the baseline "
+                     f"(baseline {bl!r}: force {float(Fo[0])!r}; baseline + "
+                     f"{c}: force {float(Fo2[0])!r})", "C13_baseline_add")
             near = md.model(p, np.array([cp + 1e-13, cp, cp - 1e-13]))
             if np.max(np.abs(near - bl)) > 1e-6 * fmax:
                 fail("force is not continuous at contact",
